@@ -83,6 +83,25 @@ NP_KERNELS = [
                        'estimator': ('ext_estimator', [py2lean.CUMMAT, 'Int', 'L[Int]', 'L[Int]', 'Int'], 'Dict',
                                      ['cummat', 'start', 'states_from', 'states_to', 'steps'])})),
     ]),
+    ('utils/_utils.py', 'UtilsRelabel', None, [
+        # the relabelling utilities for the container form `list of 1-d integer arrays` (what StateTraj passes on); the type dispatch of
+        # _flatten_data / _unflatten_data is a runtime primitive for that form (npFlattenLL / npUnflattenLL), dtype = int64
+        ('unique', dict(params=['L[L[Int]]'], ret='L[Int]', param_names=['trajs'], kwargs_consts={})),
+        ('unique', dict(lean_name='unique_counts', params=['L[L[Int]]'], ret='T[L[Int],L[Int]]', param_names=['trajs'],
+                        kwargs_consts={'return_counts': True})),
+        ('shift_data', dict(params=['L[L[Int]]', 'L[Int]', 'L[Int]'], ret='L[L[Int]]', param_names=['array', 'val_old', 'val_new'],
+                            consts={'dtype': 'np.int64'}, facts={'np.issubdtype(dtype, np.integer)': True, "np.issubdtype('np.int64', np.integer)": True})),
+        ('rename_by_index', dict(params=['L[L[Int]]'], ret='T[L[L[Int]],L[Int]]', param_names=['trajs'], consts={'return_permutation': True})),
+        ('rename_by_population', dict(params=['L[L[Int]]'], ret='T[L[L[Int]],L[Int]]', param_names=['trajs'], consts={'return_permutation': True},
+                                      xcalls={'unique': ('UtilsRelabel', 'unique_counts')},
+                                      externals={'np.argsort': ('ext_argsort_int', ['L[Int]'], 'L[Int]')})),
+    ]),
+    ('statetraj.py', 'StateTrajInit', 'StateTraj', [
+        ('__init__', dict(lean_name='init', params=['L[L[Int]]'], ret='T[L[L[Int]],L[Int]]', param_names=['trajs'],
+                          facts={'isinstance(trajs, StateTraj)': False}, self_locals=['_trajs', '_states'],
+                          self_props={'nstates': 'len(self._states)'}, returns_self=['_trajs', '_states'],
+                          drop_stmts=['dtype = np.result_type(*self._trajs)'])),
+    ]),
     ('msm/msm.py', 'MsmEstimate', None, [
         ('_estimate_markov_model', dict(
             lean_name='estimate_markov_model_perm', ret='T[L[L[Rat]],L[Int]]', not_none=['perm'],
@@ -163,6 +182,9 @@ NP_KERNELS = [
 
 # calls of translated functions of OTHER modules: dotted python name -> (namespace, function)
 XREF = {
+    'mh.utils.unique': ('UtilsRelabel', 'unique'),
+    'mh.utils.rename_by_index': ('UtilsRelabel', 'rename_by_index'),
+    'mh.utils.format_state_traj': None,
     'mh.msm.row_normalize_matrix': ('MsmNorm', 'row_normalize_matrix'),
     'mh.utils.tests.is_ergodic': ('UtilsTests', 'is_ergodic'),
     'tests.is_ergodic': ('UtilsTests', 'is_ergodic'),
@@ -262,10 +284,31 @@ class _Prep(ast.NodeTransformer):
     flags    {'numba.config.DISABLE_JIT': 'cfg_disable_jit'} : a module-level configuration flag becomes a Bool parameter."""
 
     def __init__(self, sig):
+        self.facts = sig.get('facts', {})                  # source text of an expression -> constant (type dispatch resolved by the signature table)
+        self.self_locals = set(sig.get('self_locals', []))  # self.<x> assigned by the method: a local variable self_<x>
+        self.self_props = {k: ast.parse(v, mode='eval').body for k, v in sig.get('self_props', {}).items()}
+        self.kwargs_consts = sig.get('kwargs_consts')      # `**kwargs` at a call site replaced by these keyword constants
+        self.drop = set(sig.get('drop_stmts', []))           # source text of statements that are dropped (e.g. the dtype bookkeeping)
         self.not_none = set(sig.get('not_none', []))
         self.objects = sig.get('objects', {})
         self.consts = sig.get('consts', {})
         self.flags = sig.get('flags', {})
+
+    def visit(self, node):
+        if isinstance(node, ast.expr) and self.facts:
+            try:
+                txt = ast.unparse(node)
+            except Exception:  # noqa
+                txt = None
+            if txt in self.facts:
+                return ast.copy_location(ast.Constant(value=self.facts[txt]), node)
+        if isinstance(node, ast.stmt) and self.drop:
+            try:
+                if ast.unparse(node) in self.drop:
+                    return None
+            except Exception:  # noqa
+                pass
+        return super().visit(node)
 
     def visit_Assign(self, node):
         if len(node.targets) == 1 and isinstance(node.targets[0], ast.Name) and node.targets[0].id in self.objects \
@@ -276,6 +319,12 @@ class _Prep(ast.NodeTransformer):
 
     def visit_Attribute(self, node):
         d = _dotted(node)
+        if isinstance(node.value, ast.Name) and node.value.id == 'self':
+            if node.attr in self.self_props and isinstance(node.ctx, ast.Load):
+                import copy
+                return self.visit(copy.deepcopy(self.self_props[node.attr]))
+            if node.attr in self.self_locals:
+                return ast.copy_location(ast.Name(id='self_' + node.attr.lstrip('_'), ctx=node.ctx), node)
         if d in self.flags:
             return ast.copy_location(ast.Name(id=self.flags[d], ctx=ast.Load()), node)
         if isinstance(node.value, ast.Name) and node.value.id in self.objects and node.attr in self.objects[node.value.id].get('attrs', {}):
@@ -306,6 +355,9 @@ class _Prep(ast.NodeTransformer):
 
     def visit_Call(self, node):
         d = _dotted(node.func)
+        if self.kwargs_consts is not None and any(k.arg is None for k in node.keywords):
+            node.keywords = [k for k in node.keywords if k.arg is not None] + \
+                [ast.keyword(arg=kk, value=ast.Constant(value=vv)) for kk, vv in self.kwargs_consts.items()]
         if d == 'isinstance' and len(node.args) == 2 and isinstance(node.args[0], ast.Name) and node.args[0].id in self.objects:
             flag = self.objects[node.args[0].id].get('isinstance', {}).get(_dotted(node.args[1]))
             if flag:
@@ -346,7 +398,8 @@ class _Prep(ast.NodeTransformer):
 
 def prepare(node, sig):
     """returns a FunctionDef whose positional parameters are exactly sig['param_names'] (when given)"""
-    if not any(k in sig for k in ('objects', 'consts', 'flags', 'param_names', 'not_none')):
+    if not any(k in sig for k in ('objects', 'consts', 'flags', 'param_names', 'not_none', 'facts', 'self_locals', 'self_props', 'kwargs_consts',
+                                  'drop_stmts', 'returns_self')):
         return node
     import copy
     node = copy.deepcopy(node)          # the same source function may be prepared several times (specialisations)
@@ -363,11 +416,16 @@ def prepare(node, sig):
             for n in ast.walk(it):
                 if isinstance(n, ast.Name) and isinstance(n.ctx, ast.Store) and n.id in prep.consts:
                     del prep.consts[n.id]
+    if sig.get('returns_self'):
+        # a constructor: the object state it leaves behind is the function's result
+        new_body.append(ast.Return(value=ast.Tuple(elts=[ast.Name(id='self_' + a_.lstrip('_'), ctx=ast.Load()) for a_ in sig['returns_self']], ctx=ast.Load())))
     node.body = new_body
     ast.fix_missing_locations(node)
     # statements after an unconditional return (left over from resolved constants) are dropped
     body = []
     for st in node.body:
+        if isinstance(st, ast.If) and isinstance(st.test, ast.Constant) and not st.test.value and not st.orelse:
+            continue
         body.append(st)
         if isinstance(st, ast.Return):
             break
@@ -786,6 +844,57 @@ class NpFn(Fn):
                 self.imports.add('MdComparison')
                 c, t = eff('MsmVerif.Gen.MdComparison.intersect ((%s).length + (%s).length + 1) %s %s' % (a, b, a, b), 'Int')
                 return pre, c, t
+            if name == 'np.unique' and len(args) == 1 and list(kw) == ['return_counts'] and isinstance(kw['return_counts'], ast.Constant) \
+                    and kw['return_counts'].value is True:
+                c, t = sub(args[0])
+                if t != ('L', 'Int'):
+                    raise Unsupported('%s: np.unique of %s' % (self.name, t))
+                return pre, '(npUnique %s, npUniqueCounts %s)' % (c, c), ('T', ('L', 'Int'), ('L', 'Int'))
+            if name == '_flatten_data' and len(args) == 1:
+                c, t = sub(args[0])
+                if t != ('L', ('L', 'Int')):
+                    raise Unsupported('%s: _flatten_data of %s' % (self.name, t))
+                return pre, '(npFlattenLL %s)' % c, ('T', ('L', 'Int'), ('L', 'Int'))
+            if name == '_unflatten_data' and len(args) == 2:
+                c, t = sub(args[0])
+                kwc, kwt = sub(args[1])
+                if t != ('L', 'Int') or kwt != ('L', 'Int'):
+                    raise Unsupported('%s: _unflatten_data form' % self.name)
+                return pre, '(npUnflattenLL %s %s)' % (c, kwc), ('L', ('L', 'Int'))
+            if name == 'np.min' and len(args) == 1:
+                if isinstance(args[0], ast.List) and len(args[0].elts) == 2:
+                    a, ta = sub(args[0].elts[0])
+                    b, tb = sub(args[0].elts[1])
+                    if ta != 'Int' or tb != 'Int':
+                        raise Unsupported('%s: np.min of a pair of %s, %s' % (self.name, ta, tb))
+                    return pre, '(min %s %s)' % (a, b), 'Int'
+                c, t = sub(args[0])
+                if t != ('L', 'Int'):
+                    raise Unsupported('%s: np.min of %s' % (self.name, t))
+                c, t = eff('npMinInt %s' % c, 'Int')
+                return pre, c, t
+            if meth == 'max' and not args and self.typeof(e.func.value) == ('L', 'Int'):
+                c, t = sub(e.func.value)
+                c, t = eff('npMaxInt %s' % c, 'Int')
+                return pre, c, t
+            if meth == 'astype' and len(args) == 1:
+                c, t = sub(e.func.value)
+                d = _dotted(args[0]) if not isinstance(args[0], ast.Constant) else args[0].value
+                if elem(t) != 'Int':
+                    raise Unsupported('%s: astype on %s' % (self.name, t))
+                if d == 'np.int32':
+                    if not is_vec(t):
+                        raise Unsupported('%s: astype(int32) of %s' % (self.name, t))
+                    return pre, '((%s).map npWrap32)' % c, t
+                if d in ('np.int64', 'int64', 'dtype'):
+                    return pre, c, t            # int64 / the common input dtype: wrap-around there is outside the model (unbounded Int)
+                raise Unsupported('%s: astype(%s)' % (self.name, d))
+            if name == 'np.array_equal' and len(args) == 2:
+                a, ta = sub(args[0])
+                b, tb = sub(args[1])
+                if ta != tb or not is_vec(ta):
+                    raise Unsupported('%s: array_equal of %s, %s' % (self.name, ta, tb))
+                return pre, '(%s == %s)' % (a, b), 'Bool'
             if name == 'np.unique' and len(args) == 1 and not kw:
                 c, t = sub(args[0])
                 if t == 'Int':
@@ -960,7 +1069,7 @@ class NpFn(Fn):
             if name in ('np.asarray', '_np.asarray') and len(args) == 1:
                 c, t = sub(args[0], want=want)
                 return pre, c, t
-            if name == 'np.arange':
+            if name == 'np.arange' and set(kw) <= {'dtype'}:
                 if len(args) == 1:
                     a, _ = sub(args[0])
                     return pre, '(npArange 0 %s)' % a, ('L', 'Int')
@@ -1037,7 +1146,12 @@ class NpFn(Fn):
                 c, t = eff('%s %s' % (en, ' '.join(cs)), rt)
                 return pre, c, t
             callee = None
-            if isinstance(e.func, ast.Name) and e.func.id in self.mod:
+            if name == 'mh.utils.format_state_traj' and len(args) == 1:
+                c, t = sub(args[0])          # the container is already a list of 1-d integer arrays (form fixed by the signature table)
+                return pre, c, t
+            if name in self.xcalls and tuple(self.xcalls[name]) in REGISTRY:
+                callee = REGISTRY[tuple(self.xcalls[name])]
+            elif isinstance(e.func, ast.Name) and e.func.id in self.mod:
                 callee = self.mod[e.func.id]
             elif name in XREF and XREF[name] in REGISTRY:
                 callee = REGISTRY[XREF[name]]
@@ -1048,6 +1162,10 @@ class NpFn(Fn):
                 for p, a in zip(callee.params, args):
                     actual[p] = a
                 for k, v in kw.items():
+                    cc = dict(callee.sig.get('consts', {}))
+                    cc.update(callee.sig.get('kwargs_consts') or {})
+                    if k in cc and isinstance(v, ast.Constant) and v.value == cc[k]:
+                        continue          # the callee was translated for exactly this value of the keyword
                     if k not in callee.params or k in actual:
                         raise Unsupported('%s: call of %s with keyword %s' % (self.name, callee.name, k))
                     actual[k] = v
@@ -1303,6 +1421,15 @@ class NpFn(Fn):
                             emit_pre(pi); emit_pre(pv)
                             out.append(sp + '%s ← npSetRow %s %s %s' % (arr, arr, ci, self.coerce(cv, tv, ta[1])))
                             return out
+                if not isinstance(sl, (ast.Slice, ast.Tuple)) and is_vec(ta) and self.typeof(sl) == ('L', 'Int'):
+                    pm, cm, tm = self.ex(sl)
+                    pv, cv, tv = self.ex(s.value)
+                    if tv == ta:
+                        emit_pre(pm); emit_pre(pv)
+                        out.extend(self.ensure_local(t.value.id, ind))
+                        arr = self.lname(t.value.id)
+                        out.append(sp + '%s ← npAssignAt %s %s %s' % (arr, arr, cm, cv))
+                        return out
                 if not isinstance(sl, (ast.Slice, ast.Tuple)):
                     pm, cm, tm = self.ex(sl)
                     if tm == ('L', 'Bool') and is_vec(ta):
@@ -1503,6 +1630,7 @@ def run_module(ns, relfile, emitted, ext_impl):
 EXT_IMPL = {'ext_peq': 'MsmVerif.GenCodec.oracleVec "peq"', 'ext_argsort': 'MsmVerif.GenCodec.oracleTable "argsort"',
             'ext_left_eigenvectors': 'MsmVerif.GenCodec.oracleEig "eig"',
             'ext_choice': 'MsmVerif.GenCodec.oracleConst "choice"',
+            'ext_argsort_int': 'MsmVerif.GenCodec.oracleConst "argsort"',
             'ext_propagate': 'MsmVerif.GenCodec.oracleConst3 "propagate"',
             'ext_opentxt': 'MsmVerif.GenCodec.oracleConst "opentxt"',
             'ext_get_cummat': 'MsmVerif.GenCodec.oracleConst "cummat"',
